@@ -3,8 +3,8 @@
    MIR_init2; a blob of three pages and a bit is published, then ONE patch is made by the real function:
      C <off> <n>           _MIR_change_code (ctx, blob + off, pattern, n)
      U <b> <off> <off>...  _MIR_update_code_arr (ctx, blob + b, nloc, relocs)    (offsets relative to blob + b)
-   answer: page=<hex> addr=<hex> n=<hex> start=<hex> len=<hex> nreq=<k> ok=<0|1>
-           (start, len = the recorded request; ok = the patched bytes read back and their neighbours are untouched)
+   answer: page=<hex> addr=<hex> n=<hex> start=<hex> len=<hex> nreq=<k> start2=<hex> len2=<hex> nreq2=<k> order=<0|1> ok=<0|1>
+           (start, len = the recorded write+exec request; start2, len2 = the read+exec request that closes it; ok = the patched bytes read back and their neighbours are untouched)
    One request per line, each in a forked child: a fault in the memcpy (page not writable) is reported as CRASH. */
 #define _GNU_SOURCE
 #include <stdio.h>
@@ -17,8 +17,8 @@
 #include <sys/wait.h>
 #include "mir.h"
 
-static struct { uintptr_t start; size_t len; } req[64];
-static int nreq;
+static struct { uintptr_t start; size_t len; } req[64], req2[64]; /* write+exec requests, read+exec requests */
+static int nreq, nreq2, order_bad; /* order_bad: a read+exec request that does not follow its write+exec one */
 static void *rec_map (size_t len, void *ud) {
   void *p = mmap (NULL, len, PROT_READ | PROT_EXEC, MAP_PRIVATE | MAP_ANONYMOUS, -1, 0);
   return p == (void *) -1 ? NULL : p;
@@ -29,6 +29,11 @@ static int rec_protect (void *p, size_t len, MIR_mem_protect_t prot, void *ud) {
     req[nreq].start = (uintptr_t) p;
     req[nreq].len = len;
     nreq++;
+  } else if (prot != PROT_WRITE_EXEC && nreq2 < 64) {
+    if (nreq2 >= nreq) order_bad = 1;
+    req2[nreq2].start = (uintptr_t) p;
+    req2[nreq2].len = len;
+    nreq2++;
   }
   return mprotect (p, len, prot == PROT_WRITE_EXEC ? PROT_WRITE | PROT_EXEC : PROT_READ | PROT_EXEC);
 }
@@ -53,12 +58,12 @@ static void do_line (char *line) {
     return;
   }
   memcpy (copy, base, BLOB);
-  nreq = 0;
+  nreq = nreq2 = order_bad = 0;
   int ok = 1;
   if (w[0][0] == 'C') {
     long off = strtol (w[1], NULL, 10), n = strtol (w[2], NULL, 10);
-    uint8_t pat[64];
-    if (off < 0 || n < 0 || n > 64 || off + n > BLOB) {
+    static uint8_t pat[BLOB];
+    if (off < 0 || n < 0 || n > BLOB || off + n > BLOB) {
       printf ("BAD\n");
       return;
     }
@@ -86,7 +91,9 @@ static void do_line (char *line) {
     _MIR_update_code_arr (ctx, base + b, (size_t) nloc, relocs);
   }
   ok = memcmp (copy, base, BLOB) == 0;
-  printf (" start=%" PRIxPTR " len=%zx nreq=%d ok=%d\n", nreq > 0 ? req[0].start : 0, nreq > 0 ? req[0].len : 0, nreq, ok);
+  printf (" start=%" PRIxPTR " len=%zx nreq=%d start2=%" PRIxPTR " len2=%zx nreq2=%d order=%d ok=%d\n",
+          nreq > 0 ? req[0].start : 0, nreq > 0 ? req[0].len : 0, nreq, nreq2 > 0 ? req2[0].start : 0,
+          nreq2 > 0 ? req2[0].len : 0, nreq2, !order_bad, ok);
 }
 
 int main (void) {
